@@ -217,13 +217,11 @@ def oracle(ctx: core.Ctx, d: Any, witness: dict[str, Any], envs: list[dict[str, 
         bad = f"extras {sorted(d.extras)} -> {sorted(d2.extras)}"
     elif kind_tag(d2) != kind_tag(d):
         bad = f"kind {kind_tag(d)} -> {kind_tag(d2)}"
-    elif (d2.source_type, d2.source_url, d2.source_reference, d2.source_subdirectory) != (d.source_type, d.source_url, d.source_reference, d.source_subdirectory):
+    elif (d2.source_type, d2.source_url, d2.source_reference, d2.source_subdirectory or None) != (d.source_type, d.source_url, d.source_reference, d.source_subdirectory or None):
         bad = (f"source {(d.source_type, d.source_url, d.source_reference, d.source_subdirectory)} -> "
                f"{(d2.source_type, d2.source_url, d2.source_reference, d2.source_subdirectory)}")
     elif not d.is_same_source_as(d2) or not d2.is_same_source_as(d):
         bad = "is_same_source_as is false"
-    elif d2.to_pep_508() != text:
-        bad = f"printed text is not stable: {text!r} -> {d2.to_pep_508()!r}"
     if bad is None and not d.is_direct_origin():
         idx = regular_idx([d.constraint, d2.constraint], probes)
         b1, b2 = V.bits(d.constraint, probes), V.bits(d2.constraint, probes)
@@ -259,6 +257,13 @@ def outside_domain(d: Any) -> str | None:
         parts = d.pretty_constraint.split(",")
         if "||" in d.pretty_constraint or "|" in d.pretty_constraint:
             return "disjunction-constraint"
+    return None
+
+
+def text_class(t: str) -> str | None:
+    m = re.match(r"\s*([A-Za-z0-9][A-Za-z0-9._-]*)\s*(\[[^\]]*\])?\s*(@?)", t)
+    if m and not m.group(3) and GD.looks_like_archive(m.group(1)):
+        return K_ARCHIVE
     return None
 
 
@@ -376,7 +381,7 @@ def run_insensitive(ctx: core.Ctx, pairs: list[tuple[str, str]]) -> None:
             db = real_parse(b)
             rb = dep_report(db, probes, envs)
         except Exception as e:  # noqa: BLE001
-            ctx.violate(classify(da, a, None) or f"spelling-rejected:{b}", f"{a!r} parses but its re-spelling {b!r} raises {type(e).__name__}: {str(e)[:100]}",
+            ctx.violate(classify(da, a, None) or text_class(b) or f"spelling-rejected:{b}", f"{a!r} parses but its re-spelling {b!r} raises {type(e).__name__}: {str(e)[:100]}",
                         {"pair": [a, b]})
             continue
         ctx.case("i:" + b, nontrivial=True)
